@@ -103,6 +103,12 @@ chk('C20', 'exploration', 'bounded exhaustive enumeration of formulas x Boolean-
     'values restricted to {-1,1}; one open finding (iff/xor/rise/fall over polarity-dependent operands) suppressed by a syntactic predicate',
     'DESIGN.md section 5 C20')
 
+chk('C17', 'exploration', 'exhaustive enumeration of the operator x monitor-kind x data-shape matrix on the real monitors',
+    'every operator alone and nested under/above every other one (<=2 operators) and every arithmetic operator is run under the six monitor configurations and ten data shapes (1 or 3 samples; plain, unused declared variable with/without data, undeclared supplied variable, reversed order); '
+    'supported combinations must return normally, unsupported ones must raise RTAMTException at parse/pastify/first evaluation and never yield a value',
+    'the support matrix is the one stated in the property; returned values are not judged here',
+    'DESIGN.md section 5 C17')
+
 def main():
     props = [json.loads(l) for l in open(os.path.join(ROOT, 'properties.jsonl'))]
     checks = []
